@@ -162,7 +162,7 @@ type c08Action struct {
 var c08KindNames = []string{"put", "delete", "begin", "tx-get", "tx-put", "tx-delete", "tx-list", "commit", "release", "quiesce", "rollback", "use-finished", "step"}
 
 func c08TxOpGen() *rapid.Generator[c08Action] {
-	kinds := []int{3, 3, 3, 4, 4, 4, 5, 6, 6}
+	kinds := []int{3, 6, 3, 4, 3, 5, 6, 4}
 	return rapid.Custom(func(t *rapid.T) c08Action {
 		a := c08Action{Kind: kinds[rapid.IntRange(0, len(kinds)-1).Draw(t, "txop")]}
 		if a.Kind == 6 {
@@ -180,7 +180,7 @@ func c08TxOpGen() *rapid.Generator[c08Action] {
 func c08ActionGen() *rapid.Generator[c08Action] {
 	// weights
 	// rapid draws small indexes more often: most wanted first
-	kinds := []int{12, 12, 2, 0, 12, 8, 12, 0, 2, 12, 0, 12, 8, 2, 12, 0, 12, 8, 0, 12, 1, 3, 4, 6, 7, 8, 9, 10, 11}
+	kinds := []int{2, 12, 0, 12, 2, 0, 12, 8, 12, 0, 2, 12, 0, 12, 8, 2, 12, 0, 12, 8, 0, 12, 1, 3, 4, 6, 7, 9, 10, 11}
 	return rapid.Custom(func(t *rapid.T) c08Action {
 		a := c08Action{Kind: kinds[rapid.IntRange(0, len(kinds)-1).Draw(t, "kind")]}
 		switch a.Kind {
@@ -190,7 +190,11 @@ func c08ActionGen() *rapid.Generator[c08Action] {
 		case 2:
 			a.Slot = rapid.IntRange(0, 2).Draw(t, "slot")
 			a.RO = rapid.IntRange(0, 11).Draw(t, "ro") == 11
-			a.Script = rapid.SliceOfN(c08TxOpGen(), 1, 4).Draw(t, "script")
+			a.Script = rapid.SliceOfN(c08TxOpGen(), 1, 3).Draw(t, "script")
+			if rapid.IntRange(0, 9).Draw(t, "noFinalWrite") < 8 {
+				// most transactions end with a write, so that their commit goes through the log
+				a.Script = append(a.Script, c08Action{Kind: 4, Key: rapid.IntRange(0, len(c08Keys)-1).Draw(t, "key"), Val: rapid.IntRange(0, len(c08Values)-1).Draw(t, "val")})
+			}
 			a.EndRollback = rapid.IntRange(0, 9).Draw(t, "endRollback") == 9
 		case 3, 4, 5:
 			a.Slot = rapid.IntRange(0, 2).Draw(t, "slot")
@@ -1103,7 +1107,14 @@ func c08Judge(rt *rapid.T, rec *verifx.Recorder, r *c08Run, caseStart uint64, ca
 		rt.Fatalf("harness: fsm dump: %v", err)
 	}
 	if want := cur.dump(); strings.Join(want, "\n") != strings.Join(fsmDump, "\n") {
-		flag("fsm-data-differs-from-replay", nil, "FSM holds %v, replay of the log gives %v", fsmDump, want)
+		// takes precedence: the replay followed the verdicts the clients were given, so the FSM did something else
+		// than it reported (a verdict disagreement flagged above is then a consequence, not the finding)
+		prev := ""
+		if first != nil {
+			prev = " (first verdict disagreement: " + first.sig + ": " + first.msg + ")"
+		}
+		first = nil
+		flag("fsm-data-differs-from-replay", nil, "FSM holds %v, replay of the log with the client-visible verdicts gives %v%s", fsmDump, want, prev)
 	}
 
 	lagClass := "lag0"
